@@ -54,7 +54,7 @@ ACF = "sktime/transformations/series/acf.py"
 ADAPT = "sktime/transformations/series/adapt.py"
 SUMMARIZE = "sktime/transformations/series/summarize.py"
 
-NO_INLINE = ("check_is_fitted", "check_window_length", "check_random_state", "_concat_nested_arrays", "_get_random",
+NO_INLINE = ("check_is_fitted", "check_window_length", "check_random_state", "_concat_nested_arrays",
              "check_X", "check_series", "from_nested_to_2d_array", "from_2d_array_to_nested", "from_3d_numpy_to_2d_array",
              "_get_time_index", "clone")
 
@@ -225,7 +225,7 @@ def _randint(it, args, kwargs, st):
 
     lo, hi = el(low), el(high)
     if lo is None or hi is None:
-        return Opq("randint", args)
+        return NotImplemented
     it.uid += 1
     r = Lin.sym("rand#%d" % it.uid)
     if not hasattr(it, "randints"):
@@ -1215,35 +1215,6 @@ def r2_imputer(ctx, repo):
                   "for some option values the documented rule name %r falls through the dispatch to the unknown-method error" % name, loc)
         for s, ret in rets:
             imputer_return(ctx, repo, it, c, name, ret, Z, loc)
-    # 'random': values between the minimum and the maximum of the series, drawn from check_random_state(self.random_state)
-    gr = cls.methods.get("_get_random")
-    if gr is None:
-        ctx.undecided("R2", "Imputer._get_random:range", "helper _get_random not found", loc)
-    else:
-        it = mk_interp(repo, no_inline=tuple(x for x in NO_INLINE if x != "_get_random"))
-        sv = SelfV(cls)
-        Z = Src("Z", "series")
-        traces, fst, k, f2 = run_method(repo, it, sv, "_get_random", {astq.param_names(gr, skip_self=True)[0]: Z})
-        vals = [v for _, v in normal_returns(traces)]
-        good = None
-        if vals:
-            good = True
-            for v in vals:
-                a = None
-                if isinstance(v, Opq) and v.tag == "randint":
-                    a = list(v.args)
-                elif isinstance(v, CallV) and v.name in ("uniform", "randint") and isinstance(v.recv, CallV) \
-                        and v.recv.name.endswith("check_random_state") and v.recv.args == [Opq("self.random_state")]:
-                    a = list(v.args)
-                if a is None or len(a) != 2:
-                    good = None
-                    break
-                lo_ok = isinstance(a[0], CallV) and a[0].name == "min" and a[0].recv == Z
-                hi_ok = isinstance(a[1], CallV) and a[1].name == "max" and a[1].recv == Z
-                if not (lo_ok and hi_ok):
-                    good = False
-        ctx.check(good, "R2", "Imputer._get_random:range", "random values are drawn from [Z.min(), Z.max()] on every branch",
-                  "random values are drawn from %r, documented between Z.min() and Z.max()" % (vals,), ctx.loc(mod, gr))
     # missing_values placeholder replacement
     it = mk_interp(repo, no_inline=NO_INLINE + ("_check_method",))
     sv = SelfV(cls)
@@ -1314,18 +1285,48 @@ def imputer_return(ctx, repo, it, c, name, ret, Z, loc):
     elif op == "apply":
         a0 = core.arg(0, "func")
         good = core.name == "apply" and core.recv == Z
+        draws = []
         if good:
             fr = Frame(it.repo.module(IMPUTE), it.repo.func(IMPUTE, "Imputer.transform"), None, None)
             res = it.call_value(a0, [Opq("probe")], {}, None, State(), fr) if isinstance(a0, (LamV, LocalFn, BoundM)) else NotImplemented
             if res is NotImplemented:
                 good = None if a0 is not None and not isinstance(a0, (K, Lin)) else False
             else:
-                hits = [x for x in walk(res) if isinstance(x, CallV) and x.name == "_get_random" and isinstance(x.recv, SelfV)]
-                good = bool(hits) and all(len(x.args) == 1 and x.args[0] == Z and not x.kwargs for x in hits)
-        ctx.check(good, "R2", c + ":operator", "'random' -> element-wise replacement by self._get_random(Z)",
-                  "'random' dispatches to %r" % (core,), loc)
+                # the helper the element function calls is found by what it does: a draw from a random state
+                draws = [x for x in walk(res) if isinstance(x, CallV) and x.name in ("uniform", "randint", "random_sample", "choice",
+                                                                                       "normal", "rand")
+                         and isinstance(x.recv, CallV) and x.recv.name.endswith("check_random_state")]
+                unresolved = [x for x in walk(res) if isinstance(x, CallV) and isinstance(x.recv, SelfV)]
+                good = True if draws else (None if unresolved else False)
+        ctx.check(good, "R2", c + ":operator", "'random' -> element-wise replacement of missing values by a random draw",
+                  "'random' dispatches to %r: no draw from a random state replaces the missing values" % (core,), loc)
+        if draws:
+            ok = True
+            for x in draws:
+                a = list(x.args)
+                seeded = x.recv.args == [Opq("self.random_state")] and not x.recv.kwargs
+                lo_ok = len(a) == 2 and isinstance(a[0], CallV) and a[0].name == "min" and a[0].recv == Z and not a[0].args
+                hi_ok = len(a) == 2 and isinstance(a[1], CallV) and a[1].name == "max" and a[1].recv == Z and not a[1].args
+                if x.name not in ("uniform", "randint") or x.kwargs:
+                    ok = None if ok else ok
+                elif not (lo_ok and hi_ok and seeded):
+                    ok = False
+            ctx.check(ok, "R2", c + ":range", "random values are drawn between Z.min() and Z.max() of the series being imputed, "
+                      "from check_random_state(self.random_state), on every branch",
+                      "random values are drawn as %r, documented between Z.min() and Z.max() of the imputed series from "
+                      "check_random_state(self.random_state)" % (draws,), loc)
     else:
         imputer_forecast(ctx, repo, it, c, name, ret, Z, loc)
+
+
+def progression(v):
+    """(first, step, count) of an arithmetic progression value: ``arange(lo, hi, +-1)`` or its negation; None if not one."""
+    if isinstance(v, Opq) and v.tag == "neg-range" and len(v.args) == 1 and isinstance(v.args[0], Rng):
+        p = progression(v.args[0])
+        return None if p is None else (-p[0], -p[1], p[2])
+    if isinstance(v, Rng) and v.step.is_const() and v.step.const in (1, -1):
+        return (v.lo, v.step, (v.hi - v.lo).scale(v.step.const))
+    return None
 
 
 def imputer_forecast(ctx, repo, it, c, name, ret, Z, loc):
@@ -1348,8 +1349,8 @@ def imputer_forecast(ctx, repo, it, c, name, ret, Z, loc):
               "%r predicts with %r, documented %s" % (name, fc, IMPUTER_TABLE[name][2]), loc)
     pb = bound(pred, ["fh", "X", "return_pred_int", "alpha"])
     fh = pb.get("fh")
-    want = Opq("neg-range", [Rng(ZERO, sym("m(Z)"))])
-    hv = True if fh == want else (False if isinstance(fh, Rng) or isinstance(fh, Opq) and fh.tag == "neg-range" else None)
+    prog = progression(fh)
+    hv = None if prog is None else prog == (ZERO, Lin.c(-1), sym("m(Z)"))
     ctx.check(hv and set(pb) == {"fh"}, "R2", c + ":horizon", "in-sample horizon -arange(len(Z)): one step per observation",
               "prediction horizon is %r, expected -arange(len(Z))" % (fh,), loc)
     fits = [x for x in it.calls if x.name == "fit" and x.recv == fc]
